@@ -102,9 +102,16 @@ fn base_config(seed: u64, k: usize, big: bool) -> Base {
 }
 
 fn run_once(b: &Base, faults: &[(usize, i32)]) -> Result<(Arc<World>, RunResult), crate::framework::Panic> {
+    run_once_ops(b, faults, &[])
+}
+
+fn run_once_ops(b: &Base, faults: &[(usize, i32)], op_faults: &[(Op, usize, i32)]) -> Result<(Arc<World>, RunResult), crate::framework::Panic> {
     let mut wcfg = b.wcfg.clone();
     for (call, errno) in faults {
         wcfg.faults.at_call.insert(*call, Fault { errno: *errno });
+    }
+    for (op, n, errno) in op_faults {
+        wcfg.faults.at_op.insert((*op, *n), Fault { errno: *errno });
     }
     guarded(|| {
         let world = World::new(wcfg);
@@ -128,9 +135,14 @@ fn judge(b: &Base, faults: &[(usize, i32)], world: &Arc<World>, run: &RunResult,
         .iter()
         .position(|e| matches!(&e.ev, crate::world::Ev::NewSocket { kind: trippy_core::verif::VerifSocketKind::RecvV4 { .. } | trippy_core::verif::VerifSocketKind::RecvV6 { .. } }))
         .unwrap_or(usize::MAX);
-    let reached: Vec<(usize, Op, i32, Class)> = faults
+    // every failed call in the log other than the natural EINPROGRESS of connect was injected
+    // (trippy only reads after the socket was reported readable, so EAGAIN never occurs naturally)
+    let _ = faults;
+    let reached: Vec<(usize, Op, i32, Class)> = w
+        .log
         .iter()
-        .filter_map(|(c, e)| w.log.get(*c).filter(|le| le.err == Some(*e)).map(|le| (*c, le.op, *e, if *c <= setup_end { Class::Fatal } else { classify(le.op, *e, &b.tcfg) })))
+        .filter_map(|le| le.err.filter(|e| *e != libc::EINPROGRESS).map(|e| (le.idx, le.op, e)))
+        .map(|(c, op, e)| (c, op, e, if c <= setup_end { Class::Fatal } else { classify(op, e, &b.tcfg) }))
         .collect();
     let first_fatal = reached.iter().find(|f| f.3 == Class::Fatal);
     let fsite = |f: &(usize, Op, i32, Class)| format!("{site}|{:?}:{}{}", f.1, f.2, if f.0 <= setup_end { ":setup" } else { "" });
@@ -250,6 +262,28 @@ pub fn enumerate_base(seed: u64, k: usize, pairs: bool) -> Outcome {
                         }
                         runs += 1;
                     }
+                }
+            }
+        }
+    }
+    // runs of 2 and 3 consecutive failures of the same kind of call (the re-issued / next probe
+    // fails again), which a single-fault sweep cannot produce
+    for op in [Op::Bind, Op::Connect, Op::SendTo] {
+        let occurrences = ops.iter().filter(|o| **o == op).count();
+        for &errno in errnos_for(op) {
+            for n in 0..occurrences {
+                for len in [2usize, 3] {
+                    let fs: Vec<(Op, usize, i32)> = (0..len).map(|j| (op, n + j, errno)).collect();
+                    let replay = json!({"how": format!("vcheck C09 --seed {seed} --only {k}"), "scenario": k, "cell": site, "consecutive_faults": {"op": format!("{op:?}"), "first_occurrence": n, "count": len, "errno": errno}, "config": format!("{:?}", b.tcfg)});
+                    match run_once_ops(&b, &[], &fs) {
+                        Ok((world, run)) => {
+                            judge(&b, &[(0, errno)], &world, &run, &mut o, &replay);
+                            o.count("consecutive_fault_runs", 1);
+                        }
+                        Err(p) if p.in_repo() => o.violate("no_panic", format!("{site}|{op:?}:{errno}x{len}|{}", p.site()), format!("panic {}:{} {}", p.file, p.line, p.message), replay.clone()),
+                        Err(p) => o.harness_error = Some(format!("harness panic {}:{} {}", p.file, p.line, p.message)),
+                    }
+                    runs += 1;
                 }
             }
         }
